@@ -8,8 +8,8 @@ META = {
     "level": "proof",
     "technique": "Coq proof (induction over circuits and frames; per-gate tables by exhaustive kernel computation) that the Pauli tracker commutes every Pauli frame through every {H,S,CNOT} circuit, with vm_compute correspondence against pennylane.ftqc.pauli_tracker; MBQC conversion decided per measurement-outcome branch by an independent branch-enumerating state-vector reference (textbook matrices, documented measurement bases) and, for the one-qubit patterns, by exact simulation over Q(zeta_8) inside Coq",
     "design_ref": "DESIGN.md §3 C74",
-    "text": "(A) Props/C74.v: commute_through_gate / commute_through_circuit state C P = u P' C (u in {1,i,-1,-i}) for every gate and every circuit over {H,S,CNOT} on any number of wires, every Pauli frame and every state, where P' is what the tracker records; semantics is built from the literal textbook matrices (semantics_is_matrix_semantics), and pauli_tracker_ok_{H,S,CNOT} restate the tables on literal 2x2/4x4 matrices with Hermitian labels (sign +-1); pauli_prod_is_product_up_to_phase for all lists. The transcription (pauli_to_xz, xz_to_pauli, pauli_prod, commute_clifford_op incl. its validation, _parse_mid_measurements, _get_xz_record, _correct_samples) is evaluated inside Coq on the inputs the real functions are run on: all frames of 1-2 wires, random Clifford circuits/frames, random tapes with mid-measurement records, malformed inputs. (B) convert_to_mbqc_formalism (online corrections, diagonalize_mcms False/True, and ftqc.diagonalize_mcms applied afterwards) is run on every gate of the supported set and on random 1-2 wire circuits; every outcome branch of each single gate pattern (16 branches; all 8192 of the CNOT pattern) and sampled branches of composite circuits are simulated by the harness from the serialised program (graph edges, measurement plane/angle, truth tables of the conditions) and the state on the output wires must equal the original unitary applied to one half of Bell pairs (i.e. the whole unitary up to a global phase) with every auxiliary wire back in |0>. The one-qubit patterns are additionally simulated exactly in Coq for all 16 branches on inputs |0> and |+>. get_byproduct_corrections is checked semantically: with the online corrections removed, X^x Z^z of the returned record repairs the branch state. GraphStatePrep: decomposition = H on every wire + CZ exactly on the graph edges under the sorted-node wire map. Parametric measurements: diagonalizing gates map the documented basis states to |0>,|1>.",
-    "note": "Trusted: Coq kernel; stdlib functional extensionality (states are functions); hand transcription of pauli_tracker.py tied by correspondence only; Hadamard is modelled as sqrt2*H (homogeneous statements). Part B is a differential/semantic check per branch, not a Gallina model of the transform: the branch simulator in this file (numpy, textbook matrices, 1e-9) is the reference; the exact Coq route covers the one-qubit gate patterns only (the 15-qubit CNOT pattern is too large for exact polynomial arithmetic) and takes its unitary gate matrices from PennyLane's matrix code via the translator, the measurement projectors from the documented formula. Branches of composite circuits are sampled. z of the xz record is read through the private _get_xz_record. Initial logical->physical wire map is read from converting an Identity-only tape. convert_to_mbqc_gateset is checked on a few circuits numerically only. Non-reset parametric measurements are outside the reference.",
+    "text": "(A) Props/C74.v: commute_through_gate / commute_through_circuit state C P = u P' C (u in {1,i,-1,-i}) for every gate and every circuit over {H,S,CNOT} on any number of wires, every Pauli frame and every state, where P' is what the tracker records; semantics is built from the literal textbook matrices (semantics_is_matrix_semantics), and pauli_tracker_ok_{H,S,CNOT} restate the tables on literal 2x2/4x4 matrices with Hermitian labels (sign +-1); pauli_prod_is_product_up_to_phase for all lists; corrected_sample_undoes_frame: xor-ing a computational-basis sample with the x record undoes any frame. The transcription (pauli_to_xz, xz_to_pauli, pauli_prod, commute_clifford_op incl. its validation, _parse_mid_measurements, _get_xz_record, _correct_samples) is evaluated inside Coq on the inputs the real functions are run on: all frames of 1-2 wires, random Clifford circuits/frames, random tapes with mid-measurement records, malformed inputs. (B) convert_to_mbqc_formalism (online corrections, diagonalize_mcms False/True, and ftqc.diagonalize_mcms applied afterwards) is run on every gate of the supported set and on random 1-2 wire circuits; every outcome branch of each single gate pattern (16 branches; all 8192 of the CNOT pattern) and sampled branches of composite circuits are simulated by the harness from the serialised program (graph edges, measurement plane/angle, truth tables of the conditions) and the state on the output wires must equal the original unitary applied to one half of Bell pairs (i.e. the whole unitary up to a global phase) with every auxiliary wire back in |0>. The one-qubit patterns are additionally simulated exactly in Coq for all 16 branches on inputs |0> and |+>. get_byproduct_corrections is checked semantically: with the online corrections removed, X^x Z^z of the returned record repairs the branch state. GraphStatePrep: decomposition = H on every wire + CZ exactly on the graph edges under the sorted-node wire map. Parametric measurements: diagonalizing gates map the documented basis states to |0>,|1>.",
+    "note": "Not a theorem: the full invariant of _get_xz_record with byproducts (ideal state = record applied to the actual MBQC state after every gate) - its ingredients are proved (gate commutation, Pauli products, sample correction) and the composition is tied by correspondence plus the per-branch semantic check of get_byproduct_corrections. Known finding kept under finding:yz_plane_diagonalizing_gate_sign: for plane=YZ the diagonalizing gate RX(-angle) measures cos(t/2)|0> - i sin(t/2)|1>, the docstring of measure_arbitrary_basis says + i (XY and ZX agree with it; the MBQC conversion only uses XY). Trusted: Coq kernel; stdlib functional extensionality (states are functions); hand transcription of pauli_tracker.py tied by correspondence only; Hadamard is modelled as sqrt2*H (homogeneous statements). Part B is a differential/semantic check per branch, not a Gallina model of the transform: the branch simulator in this file (numpy, textbook matrices, 1e-9) is the reference; the exact Coq route covers the one-qubit gate patterns only (the 15-qubit CNOT pattern is too large for exact polynomial arithmetic) and takes its unitary gate matrices from PennyLane's matrix code via the translator, the measurement projectors from the documented formula. Branches of composite circuits are sampled. z of the xz record is read through the private _get_xz_record. Initial logical->physical wire map is read from converting an Identity-only tape. convert_to_mbqc_gateset is checked on a few circuits numerically only. Non-reset parametric measurements are outside the reference.",
     "assumptions": ["all wires start in |0>; a reset measurement returns its wire to |0>",
                     "outcome 0/1 of an XY-plane measurement with angle phi projects on (|0> +/- e^{i phi}|1>)/sqrt2 (documentation of measure_arbitrary_basis)"],
     "trusted": ["hand-written model coq/Disc/PauliTrackModel.v tied to /repo by correspondence only", "branch simulator in harness/props/c74.py", "harness/exactsim.py"],
@@ -482,34 +482,46 @@ def run(ctx):
                 pending_off.append((len(tracker_cases) - 1, st, order, E, lw, spec))
         if tag in ("exact", "single_exact"):
             prog, outw, inw = res["mbqc"]["ops"], res["mbqc"]["out_wires"], res["in_wires"]
-            used = sorted({inw[0]} | {w for it in prog for w in (it.get("wires") or [it.get("wire")] if it["t"] != "cond" else (it["then"].get("wires") or [it["then"].get("wire")]))})
-            cmap = {w: i for i, w in enumerate(used)}
-            if len(used) > 6:
-                continue
             nm = n_mid(spec["ops"])
             branches = list(itertools.product([0, 1], repeat=nm)) if nm <= 4 else [tuple(rng.randrange(2) for _ in range(nm)) for _ in range(4)]
             if tag == "exact" and quick:
                 branches = branches[:3]
+            NS = 5                                                   # one-qubit patterns never hold more than 5 wires
             for br in branches:
                 for inp in ("0", "+"):
-                    gates = [{"name": "Hadamard", "wires": [cmap[inw[0]]], "params": []}] if inp == "+" else []
-                    vals, k = {}, 0
-                    for it in prog:
-                        if it["t"] == "cond":
-                            if not cond_value(it, vals):
-                                continue
-                            it = it["then"]
-                        if it["t"] == "gate":
-                            if it["wires"] and it["name"] != "GlobalPhase":
-                                gates.append({"name": it["name"], "wires": [cmap[w] for w in it["wires"]], "params": it["params"]})
-                        elif it["t"] == "graph":
-                            gates += [{"name": g["name"], "wires": [cmap[w] for w in g["wires"]], "params": []} for g in it["dec"]]
-                        else:
-                            b = br[k]; k += 1
-                            vals[it["id"]] = b
-                            gates.append({"name": "MeasReset", "wires": [cmap[it["wire"]]], "angle": it["angle"], "b": b})
-                    exact_req.append({"n": len(used), "gates": gates})
-                    exact_meta.append({"spec": spec, "branch": list(br), "input": inp, "n": len(used), "out": cmap[outw[0]], "nm": nm})
+                    # physical wires are mapped to NS slots; a slot is released when its wire is measured and reset
+                    slots, free, ok = {}, list(range(NS)), True
+
+                    def sl(w):
+                        if w not in slots:
+                            if not free:
+                                raise OverflowError
+                            slots[w] = free.pop(0)
+                        return slots[w]
+                    try:
+                        gates = [{"name": "Hadamard", "wires": [sl(inw[0])], "params": []}] if inp == "+" else [{"name": "Identity", "wires": [sl(inw[0])], "params": []}]
+                        vals, k = {}, 0
+                        for it in prog:
+                            if it["t"] == "cond":
+                                if not cond_value(it, vals):
+                                    continue
+                                it = it["then"]
+                            if it["t"] == "gate":
+                                if it["wires"] and it["name"] != "GlobalPhase":
+                                    gates.append({"name": it["name"], "wires": [sl(w) for w in it["wires"]], "params": it["params"]})
+                            elif it["t"] == "graph":
+                                gates += [{"name": g["name"], "wires": [sl(w) for w in g["wires"]], "params": []} for g in it["dec"]]
+                            else:
+                                b = br[k]; k += 1
+                                vals[it["id"]] = b
+                                gates.append({"name": "MeasReset", "wires": [sl(it["wire"])], "angle": it["angle"], "b": b})
+                                free.append(slots.pop(it["wire"]))
+                        out_slot = sl(outw[0])
+                    except OverflowError:
+                        stats["exact_skipped"] = stats.get("exact_skipped", 0) + 1
+                        continue
+                    exact_req.append({"n": NS, "gates": gates})
+                    exact_meta.append({"spec": spec, "branch": list(br), "input": inp, "n": NS, "out": out_slot, "nm": nm})
     timing["branch_sim"] = round(time.time() - T0, 1)
     # ================================================================ A: tracker cases
     a_start = len(tracker_cases)
